@@ -742,7 +742,12 @@ func (s *Store[K, V]) drainWrite() {
 
 	s.writeBuffer = s.writeBuffer[:0]
 	for ; wait > 0; wait-- {
-		s.waitChan <- true
+		select {
+		case s.waitChan <- true:
+		case <-s.ctx.Done():
+			// the waiters leave through the same signal
+			return
+		}
 	}
 }
 
@@ -963,8 +968,17 @@ func (s *Store[K, V]) processSecondary() {
 
 // Wait blocks until the write channel is drained.
 func (s *Store[K, V]) Wait() {
-	s.writeChan <- WriteBufItem[K, V]{code: WAIT}
-	<-s.waitChan
+	// after Close the maintenance goroutine is gone: there is nothing to wait for
+	// and nobody to answer the marker
+	select {
+	case s.writeChan <- WriteBufItem[K, V]{code: WAIT}:
+	case <-s.ctx.Done():
+		return
+	}
+	select {
+	case <-s.waitChan:
+	case <-s.ctx.Done():
+	}
 }
 
 func (s *Store[K, V]) Recover(version uint64, reader io.Reader) error {
